@@ -813,26 +813,41 @@ typedef struct
   uint64_t seed;
   int refused;
   volatile int done;
+  volatile long gen;		/* quiet points reached */
 } prod_t;
 
 #define MT_KEY0 0x1000
 
 static volatile long mt_posted;	/* posts that have RETURNED 0 */
 
+static volatile long mt_ack;	/* quiet points acknowledged by the consumer */
+
+/* Producers post in bursts; after each burst they stop at a QUIET POINT until the consumer has received everything
+ * posted so far.  At a quiet point nobody will ring the doorbell again, so a completion whose wake-up was erased
+ * stays undelivered and the consumer's wait times out: every burst end is a chance to observe a lost wake-up
+ * (without quiet points the next post of anybody hides it). */
 static void *post_producer (void *arg)
 {
   prod_t *p = (prod_t *) arg;
+  int burst = 1 + (int) (rng_next (&p->seed) % 12);
   for (int i = 0; i < p->nper; i++)
     {
       rnd_yield (&p->seed);
+      if (rng_next (&p->seed) % 5 == 0)
+        async_runtime_wakeup (rt);
       while (async_runtime_post_completion (rt, MT_KEY0 + p->id, (uintptr_t) i) != 0)
         {
           p->refused++;
           sched_yield ();
         }
       __atomic_fetch_add (&mt_posted, 1, __ATOMIC_ACQ_REL);
-      if (rng_next (&p->seed) % 5 == 0)
-        async_runtime_wakeup (rt);
+      if (--burst == 0)
+        {
+          long g = __atomic_add_fetch (&p->gen, 1, __ATOMIC_ACQ_REL);
+          while (__atomic_load_n (&mt_ack, __ATOMIC_ACQUIRE) < g)
+            sched_yield ();
+          burst = 1 + (int) (rng_next (&p->seed) % 12);
+        }
     }
   __atomic_store_n (&p->done, 1, __ATOMIC_RELEASE);
   return 0;
@@ -857,13 +872,14 @@ static void mt_post (int nprod, int nper, int maxev, uint64_t seed)
   gate_fd = async_runtime_get_event_loop_handle (rt);
   read_jitter = &cs;		/* widen the window around this thread's doorbell read */
   __atomic_store_n (&mt_posted, 0, __ATOMIC_RELEASE);
+  __atomic_store_n (&mt_ack, 0, __ATOMIC_RELEASE);
   for (int i = 0; i < nprod; i++)
     {
-      pr[i].id = i, pr[i].nper = nper, pr[i].seed = seed * 131 + i, pr[i].refused = 0, pr[i].done = 0;
+      pr[i].id = i, pr[i].nper = nper, pr[i].seed = seed * 131 + i, pr[i].refused = 0, pr[i].done = 0, pr[i].gen = 0;
       pthread_create (&th[i], 0, post_producer, &pr[i]);
     }
   deadline = now_ms () + 2 * LIVE_MS;	/* liveness only: producers stuck */
-  int empty_after_done = 0;
+  int empty_after_done = 0, stuck = 0;
   while (got + lost < total && now_ms () < deadline)
     {
       struct timeval tv = { 0, 20000 };
@@ -878,9 +894,26 @@ static void mt_post (int nprod, int nper, int maxev, uint64_t seed)
       long before = __atomic_load_n (&mt_posted, __ATOMIC_ACQUIRE);
       int n = async_runtime_wait (rt, ev, maxev, &tv);
       if (n <= 0 && before > got + dup + garbled)
-        slept_on++;
+        {
+          slept_on++;
+          async_runtime_wakeup (rt);	/* ring for the erased wake-up so that the run can finish (verdict is already bad) */
+        }
       if (n <= 0 && all_done && ++empty_after_done >= 3)
         break;
+      /* everybody waits at a quiet point (or is done), waits keep coming back empty although we rang ourselves:
+       * what is missing will never arrive (lost / merged completions) */
+      if (n <= 0)
+        {
+          int parked = 1;
+          long ack = __atomic_load_n (&mt_ack, __ATOMIC_ACQUIRE);
+          for (int i = 0; i < nprod; i++)
+            if (!__atomic_load_n (&pr[i].done, __ATOMIC_ACQUIRE) && __atomic_load_n (&pr[i].gen, __ATOMIC_ACQUIRE) <= ack)
+              parked = 0;
+          if (parked && ++stuck >= 3)
+            break;
+        }
+      else
+        stuck = 0;
       for (int i = 0; i < n; i++)
         {
           long k = (long) ev[i].completion_key - MT_KEY0;
@@ -896,9 +929,24 @@ static void mt_post (int nprod, int nper, int maxev, uint64_t seed)
               got++;
             }
         }
+      /* quiet point: every producer that still runs has stopped after its burst g, and everything posted has arrived */
+      {
+        long g = -1;
+        for (int i = 0; i < nprod; i++)
+          if (!__atomic_load_n (&pr[i].done, __ATOMIC_ACQUIRE))
+            {
+              long gi = __atomic_load_n (&pr[i].gen, __ATOMIC_ACQUIRE);
+              if (g < 0 || gi < g)
+                g = gi;
+            }
+        if (g > __atomic_load_n (&mt_ack, __ATOMIC_ACQUIRE)
+            && __atomic_load_n (&mt_posted, __ATOMIC_ACQUIRE) == got + dup + garbled)
+          __atomic_store_n (&mt_ack, g, __ATOMIC_RELEASE);
+      }
       if (rng_next (&cs) % 4 == 0)
         usleep (rng_next (&cs) % 300);	/* let posts pile up between two waits */
     }
+  __atomic_store_n (&mt_ack, 1L << 40, __ATOMIC_RELEASE);	/* release producers still parked at a quiet point */
   for (int i = 0; i < nprod; i++)
     pthread_join (th[i], 0);
   for (int r = 0; r < 3; r++)
